@@ -1,8 +1,9 @@
 #!/bin/bash
-# run every registered check (quick) on /repo and print one summary line each
-cd /verif
+# run every registered check (tier = $1, default quick) on /repo and print one summary line each
+tier=${1:-quick}
+cd "$(dirname "$0")/.."
 for p in $(python3 -c "import json; print(' '.join(c['property_id'] for c in json.load(open('MANIFEST.json'))['checks']))"); do
-  out=$(timeout 1800 ./check $p quick 2>&1); rc=$?
+  out=$(timeout 7200 ./check $p $tier 2>&1); rc=$?
   echo "exit=$rc $(echo "$out" | tail -n 1)"
   echo "$out" | grep "UNDECIDED\|VIOLATION\|CHECK-PROBLEM\|KNOWN-FINDING" | head -5 | cut -c1-200
 done
